@@ -725,7 +725,19 @@ namespace xsimd
     {
         if (std::numeric_limits<T>::is_signed)
         {
-            return sadd(lhs, (T)-rhs);
+            // mirror of sadd: clamp lhs - rhs without negating rhs (-MIN is not representable)
+            if ((rhs < 0) && (lhs > std::numeric_limits<T>::max() + rhs))
+            {
+                return std::numeric_limits<T>::max();
+            }
+            else if ((rhs > 0) && (lhs < std::numeric_limits<T>::lowest() + rhs))
+            {
+                return std::numeric_limits<T>::lowest();
+            }
+            else
+            {
+                return lhs - rhs;
+            }
         }
         else
         {
